@@ -1,6 +1,6 @@
 (* Extraction of the C13 models for the correspondence check.  ExtrOcamlBasic only: bool, option,
    list, prod, unit, sum map to OCaml's; nat stays the extracted inductive. *)
 From Coq Require Import Extraction ExtrOcamlBasic.
-From PV Require Import Bind.Model.
+From PV Require Import Bind.Model Bind.PytdModel.
 Extraction Language OCaml.
-Extraction "bind_model.ml" bind_py bind_py_fixed bind_c lookup_all all_names wf_sigb nodupb.
+Extraction "bind_model.ml" bind_py bind_py_fixed bind_c bind_pytd lookup_all all_names wf_sigb nodupb.
